@@ -59,7 +59,7 @@ def coq_op(op):
 
 
 IDS_OK = ["diana", "u2", "client_1", "c", "x:y", "3:abc", "a;b", " lead", "trail ", "new\nline", "åäö", "0", "a:;:b",
-          ";lead", ";a;b", "dian", "client_12"]        # a single ';' at the start is legal; string-prefix relations
+          ";lead", ";a;b", "dian", "client_12", ""]    # the empty identifier (default of create_session); a single ';' at the start is legal; string-prefix relations
 IDS_BAD = ["a;;b", "semi;", ";;", "x;;;y", ";"]
 
 
